@@ -13,6 +13,7 @@ import (
 	"sort"
 	"strings"
 	"sync"
+	"sync/atomic"
 	"time"
 )
 
@@ -161,6 +162,7 @@ var symRe = regexp.MustCompile(`\|[^|]*\|`)
 func (V *Verifier) buildQuery(o *Oblig, sums map[string]*SumFn, negate bool, level int) string {
 	ground := level >= 10 && level < 20 // level 1x: lemma level x on the ground part of the assumptions
 	focusMode := level >= 20            // level 2x: lemma level x, unfoldings and lemma instances only for the sums of the goal
+	flat := level >= 40                 // level 4x: as 3x without the nested rounds of pointwise lemmas (goals with stepping-stone lemmas among their hypotheses)
 	udiv := level >= 30                 // level 3x: as 2x with quotients by symbolic divisors left uninterpreted (only their sign facts are kept)
 	level = level % 10
 	var body strings.Builder
@@ -270,7 +272,7 @@ func (V *Verifier) buildQuery(o *Oblig, sums map[string]*SumFn, negate bool, lev
 		}
 		scan = strings.Join(added, "\n")
 	}
-	unfold = append(unfold, sumRelationLemmas(text+strings.Join(unfold, "\n"), sums, level, focus)...)
+	unfold = append(unfold, sumRelationLemmas(text+strings.Join(unfold, "\n"), sums, level, focus, flat)...)
 	if level >= 2 {
 		unfold = append(unfold, divSignInstances(text+strings.Join(unfold, "\n"))...)
 	}
@@ -381,6 +383,9 @@ func sexpArgs(text, fn string) [][]string {
 // without it the racing configurations of several obligations starve each other and time limits are hit for no reason.
 var solverSem = make(chan struct{}, 14)
 
+// definiteFailures counts the obligations of this run that no configuration discharged.
+var definiteFailures int32
+
 type solverCfg struct {
 	Name  string
 	Cmd   []string
@@ -411,6 +416,8 @@ func (V *Verifier) solverConfigs() []solverCfg {
 		z("z3-new/goal+mono", 22, ""),
 		c("cvc5/goal+mono", 22),
 		z("z3-new/goal+lemmas", 23, ""),
+		z("z3-new/goal+lemmas/flat", 43, ""),
+		{"z3-4.8.12/goal+lemmas/flat", []string{"z3", fmt.Sprintf("-T:%d", t)}, "", 43},
 		z("z3-new/goal+lemmas/udiv", 33, ""),
 		{"z3-4.8.12/goal+lemmas/udiv", []string{"z3", fmt.Sprintf("-T:%d", t)}, "", 33},
 		c("cvc5/goal+lemmas", 23),
@@ -566,10 +573,20 @@ func (V *Verifier) discharge(o *Oblig, sums map[string]*SumFn, dir string) {
 	}
 	runStage(stageA, len(stageB)+len(stageC) > 0)
 	runStage(stageB, false)
-	runStage(stageC, false)
+	if atomic.LoadInt32(&definiteFailures) >= 3 && !o.Vacuity {
+		// the run already has three obligations that every configuration failed to discharge: its verdict is a
+		// violation whatever the remaining ones say; the slow last stage is skipped for them to keep mutant runs short
+		// (never happens on a tree where everything discharges)
+		details = append(details, "stageC:skipped(after-3-failures)")
+	} else {
+		runStage(stageC, false)
+	}
 	o.Time = time.Since(t0).Seconds()
 	sort.Strings(details)
 	o.Detail = strings.Join(details, " ")
+	if got == "" && !o.Vacuity {
+		atomic.AddInt32(&definiteFailures, 1)
+	}
 	if got != "" {
 		o.Status = got
 	} else if o.Status == "" {
@@ -593,6 +610,7 @@ func (V *Verifier) discharge(o *Oblig, sums map[string]*SumFn, dir string) {
 			os.WriteFile(filepath.Join(kd, sanitize(o.Name)+".goal.smt2"), []byte(query(23)), 0o644)
 			os.WriteFile(filepath.Join(kd, sanitize(o.Name)+".goalmono.smt2"), []byte(query(22)), 0o644)
 			os.WriteFile(filepath.Join(kd, sanitize(o.Name)+".udiv.smt2"), []byte(query(33)), 0o644)
+			os.WriteFile(filepath.Join(kd, sanitize(o.Name)+".flat.smt2"), []byte(query(43)), 0o644)
 		}
 	}
 }
@@ -644,7 +662,7 @@ func hasBoundArg(args []string) bool {
 //
 // for the candidate positions k derived from the indices of array stores occurring in the arguments. The inner
 // universal is in an antecedent, so each instance is quantifier-free after skolemisation.
-func sumRelationLemmas(text string, sums map[string]*SumFn, level int, focus string) []string {
+func sumRelationLemmas(text string, sums map[string]*SumFn, level int, focus string, noNestedPW bool) []string {
 	// focus != "": single-application lemmas only for applications occurring in the focus text (the goal and the
 	// instances made for its skolem constants), pair lemmas only for pairs with at least one member in it
 	inFocus := func(fn string, a []string) bool {
@@ -940,7 +958,7 @@ func sumRelationLemmas(text string, sums map[string]*SumFn, level int, focus str
 			var next [][2]string
 			emitted := map[string]bool{}
 			for _, pl := range pwLines {
-				if level < 3 || len(next) >= 16 {
+				if level < 3 || len(next) >= 16 || noNestedPW {
 					break
 				}
 				for _, k := range names {
